@@ -1,3 +1,629 @@
 package main
 
-func generate(repo, out string) error { return nil }
+// T1: facts extracted from /repo's current source with go/parser + go/ast and written as Lean *data* in a fixed
+// schema (QF/Gen/Facts.lean, QF/Gen/Ryu.lean). Nothing here is free-form Lean code: a change of the source shows up
+// as a changed value, which breaks a proof (a `decide` over the data), not the build of the driver.
+
+import (
+	"bytes"
+	"fmt"
+	"go/ast"
+	"go/parser"
+	"go/printer"
+	"go/token"
+	"math/big"
+	"os"
+	"path/filepath"
+	"sort"
+	"strconv"
+	"strings"
+)
+
+var fset = token.NewFileSet()
+
+func src(n ast.Node) string {
+	var b bytes.Buffer
+	printer.Fprint(&b, fset, n)
+	return strings.Join(strings.Fields(b.String()), " ")
+}
+
+func leanStr(s string) string {
+	var b strings.Builder
+	b.WriteByte('"')
+	for _, c := range s {
+		switch c {
+		case '"':
+			b.WriteString("\\\"")
+		case '\\':
+			b.WriteString("\\\\")
+		case '\n':
+			b.WriteString("\\n")
+		case '\t':
+			b.WriteString("\\t")
+		default:
+			b.WriteRune(c)
+		}
+	}
+	b.WriteByte('"')
+	return b.String()
+}
+
+func parseDir(dir string) map[string]*ast.File {
+	pkgs, err := parser.ParseDir(fset, dir, func(fi os.FileInfo) bool {
+		return !strings.HasSuffix(fi.Name(), "_test.go") && !strings.HasPrefix(fi.Name(), "verif_")
+	}, parser.ParseComments)
+	files := map[string]*ast.File{}
+	if err != nil {
+		return files
+	}
+	for _, p := range pkgs {
+		for name, f := range p.Files {
+			files[filepath.Base(name)] = f
+		}
+	}
+	return files
+}
+
+// string constants of a package (filter.Gt = ">" …)
+func stringConsts(files map[string]*ast.File) map[string]string {
+	res := map[string]string{}
+	for _, f := range files {
+		for _, d := range f.Decls {
+			gd, ok := d.(*ast.GenDecl)
+			if !ok || gd.Tok != token.CONST {
+				continue
+			}
+			for _, sp := range gd.Specs {
+				vs := sp.(*ast.ValueSpec)
+				for i, n := range vs.Names {
+					if i < len(vs.Values) {
+						if bl, ok := vs.Values[i].(*ast.BasicLit); ok && bl.Kind == token.STRING {
+							if v, err := strconv.Unquote(bl.Value); err == nil {
+								res[n.Name] = v
+							}
+						}
+					}
+				}
+			}
+		}
+	}
+	return res
+}
+
+// resolve a map key such as filter.Gt or "any_bits" to its string value
+func resolveKey(e ast.Expr, filterConsts map[string]string) string {
+	switch t := e.(type) {
+	case *ast.BasicLit:
+		if v, err := strconv.Unquote(t.Value); err == nil {
+			return v
+		}
+	case *ast.SelectorExpr:
+		if v, ok := filterConsts[t.Sel.Name]; ok {
+			return v
+		}
+	case *ast.Ident:
+		if v, ok := filterConsts[t.Name]; ok {
+			return v
+		}
+	}
+	return "?" + src(e)
+}
+
+type kv struct{ k, v string }
+
+// map literals assigned to package-level variables
+func mapTables(files map[string]*ast.File, filterConsts map[string]string) map[string][]kv {
+	res := map[string][]kv{}
+	for _, f := range files {
+		for _, d := range f.Decls {
+			gd, ok := d.(*ast.GenDecl)
+			if !ok || gd.Tok != token.VAR {
+				continue
+			}
+			for _, sp := range gd.Specs {
+				vs, ok := sp.(*ast.ValueSpec)
+				if !ok || len(vs.Values) != 1 {
+					continue
+				}
+				cl, ok := vs.Values[0].(*ast.CompositeLit)
+				if !ok {
+					continue
+				}
+				if _, ok := cl.Type.(*ast.MapType); !ok {
+					continue
+				}
+				var ents []kv
+				for _, el := range cl.Elts {
+					if p, ok := el.(*ast.KeyValueExpr); ok {
+						ents = append(ents, kv{resolveKey(p.Key, filterConsts), src(p.Value)})
+					}
+				}
+				sort.Slice(ents, func(i, j int) bool { return ents[i].k < ents[j].k })
+				res[vs.Names[0].Name] = ents
+			}
+		}
+	}
+	return res
+}
+
+// kernelShape classifies a filter kernel: (shape, expression). Shapes: guarded, unguarded, noop, opaque.
+func kernelShape(fd *ast.FuncDecl) (string, string) {
+	var loop *ast.RangeStmt
+	others := 0
+	for _, st := range fd.Body.List {
+		if r, isR := st.(*ast.RangeStmt); isR {
+			if id, isI := r.X.(*ast.Ident); isI && id.Name == "bIndex" {
+				loop = r
+				continue
+			}
+		}
+		if ret, isRet := st.(*ast.ReturnStmt); isRet {
+			if len(ret.Results) == 1 {
+				if call, isCall := ret.Results[0].(*ast.CallExpr); isCall {
+					return "delegates", src(call)
+				}
+			}
+			continue
+		}
+		if as, isAs := st.(*ast.AssignStmt); isAs && src(as.Lhs[0]) == "_" {
+			continue
+		}
+		others++
+	}
+	if loop == nil {
+		if others == 0 {
+			return "noop", ""
+		}
+		return "opaque", src(fd.Body)
+	}
+	body := loop.Body.List
+	guarded := false
+	if len(body) == 1 {
+		if ifs, isIf := body[0].(*ast.IfStmt); isIf && src(ifs.Cond) == "!x" && ifs.Else == nil && ifs.Init == nil {
+			guarded = true
+			body = ifs.Body.List
+		}
+	}
+	decls := []string{}
+	assign, cond := "", ""
+	for _, st := range body {
+		switch s := st.(type) {
+		case *ast.AssignStmt:
+			if src(s.Lhs[0]) == "bIndex[i]" {
+				assign = src(s.Rhs[0])
+			} else {
+				decls = append(decls, src(s))
+			}
+		case *ast.IfStmt:
+			if len(s.Body.List) == 1 && s.Else == nil {
+				if a, isA := s.Body.List[0].(*ast.AssignStmt); isA && src(a.Lhs[0]) == "bIndex[i]" {
+					cond = src(s.Cond)
+					assign = src(a.Rhs[0])
+					continue
+				}
+			}
+			return "opaque", src(fd.Body)
+		default:
+			return "opaque", src(fd.Body)
+		}
+	}
+	if assign == "" {
+		return "opaque", src(fd.Body)
+	}
+	pre := ""
+	if others != 0 {
+		pre = "+pre" // statements before the loop (argument checks)
+	}
+	e := assign
+	if cond != "" {
+		e = "(" + cond + ") && (" + assign + ")"
+	}
+	if len(decls) > 0 {
+		e = "let {" + strings.Join(decls, "; ") + "} in " + e
+	}
+	if guarded {
+		return "guarded" + pre, e
+	}
+	return "unguarded" + pre, e
+}
+
+func hasParam(fd *ast.FuncDecl, name string) bool {
+	if fd.Type.Params == nil {
+		return false
+	}
+	for _, par := range fd.Type.Params.List {
+		for _, nm := range par.Names {
+			if nm.Name == name {
+				return true
+			}
+		}
+	}
+	return false
+}
+
+func funcDecls(files map[string]*ast.File) map[string]*ast.FuncDecl {
+	res := map[string]*ast.FuncDecl{}
+	for _, f := range files {
+		for _, d := range f.Decls {
+			if fd, ok := d.(*ast.FuncDecl); ok && fd.Body != nil {
+				name := fd.Name.Name
+				if fd.Recv != nil && len(fd.Recv.List) > 0 {
+					name = strings.TrimPrefix(src(fd.Recv.List[0].Type), "*") + "." + name
+				}
+				res[name] = fd
+			}
+		}
+	}
+	return res
+}
+
+// constant / variable initialisers by name
+func valueOf(files map[string]*ast.File, name string) string {
+	for _, f := range files {
+		for _, d := range f.Decls {
+			gd, ok := d.(*ast.GenDecl)
+			if !ok {
+				continue
+			}
+			for _, sp := range gd.Specs {
+				vs, ok := sp.(*ast.ValueSpec)
+				if !ok {
+					continue
+				}
+				for i, n := range vs.Names {
+					if n.Name == name && i < len(vs.Values) {
+						return src(vs.Values[i])
+					}
+				}
+			}
+		}
+	}
+	return "?missing"
+}
+
+func bodyOf(fns map[string]*ast.FuncDecl, name string) string {
+	if fd, ok := fns[name]; ok {
+		return src(fd.Body)
+	}
+	return "?missing"
+}
+
+// uint128 tables of internal/ryu/tables.go: {lo, hi} pairs
+func ryuTable(files map[string]*ast.File, name string) [][2]string {
+	var res [][2]string
+	for _, f := range files {
+		for _, d := range f.Decls {
+			gd, ok := d.(*ast.GenDecl)
+			if !ok {
+				continue
+			}
+			for _, sp := range gd.Specs {
+				vs, ok := sp.(*ast.ValueSpec)
+				if !ok || len(vs.Names) != 1 || vs.Names[0].Name != name || len(vs.Values) != 1 {
+					continue
+				}
+				cl, ok := vs.Values[0].(*ast.CompositeLit)
+				if !ok {
+					continue
+				}
+				for _, el := range cl.Elts {
+					if ecl, ok := el.(*ast.CompositeLit); ok && len(ecl.Elts) == 2 {
+						var pair [2]string
+						for i, x := range ecl.Elts {
+							if bl, ok := x.(*ast.BasicLit); ok {
+								n := new(big.Int)
+								if _, ok := n.SetString(bl.Value, 0); ok {
+									pair[i] = n.String()
+									continue
+								}
+							}
+							pair[i] = "0"
+						}
+						res = append(res, pair)
+					}
+				}
+			}
+		}
+	}
+	return res
+}
+
+func fnv64(s string) uint64 {
+	h := uint64(14695981039346656037)
+	for i := 0; i < len(s); i++ {
+		h ^= uint64(s[i])
+		h *= 1099511628211
+	}
+	return h
+}
+
+func writeIfChanged(path string, content []byte) error {
+	old, err := os.ReadFile(path)
+	if err == nil && bytes.Equal(old, content) {
+		return nil
+	}
+	return os.WriteFile(path, content, 0o644)
+}
+
+func generate(repo, out string) error {
+	if out == "" {
+		return fmt.Errorf("no output directory")
+	}
+	if err := os.MkdirAll(out, 0o755); err != nil {
+		return err
+	}
+	var b bytes.Buffer
+	b.WriteString("/- GENERATED on every run by /verif/go/cmd/extract from /repo's source (tie T1). Do not edit. -/\nnamespace QF.Gen\n\n")
+
+	filterFiles := parseDir(filepath.Join(repo, "filter"))
+	fconsts := stringConsts(filterFiles)
+
+	// 1. filter.Inverse
+	b.WriteString("/-- filter.Inverse: comparator ↦ inverse comparator -/\ndef inverse : List (String × String) := [")
+	inv := mapTables(filterFiles, fconsts)["Inverse"]
+	for i, e := range inv {
+		if i > 0 {
+			b.WriteString(", ")
+		}
+		v := e.v
+		if r, ok := fconsts[e.v]; ok {
+			v = r
+		}
+		fmt.Fprintf(&b, "(%s, %s)", leanStr(e.k), leanStr(v))
+	}
+	b.WriteString("]\n\n")
+
+	// 2. comparator tables and kernels of the five column packages
+	var tables, kernels []string
+	for _, p := range []string{"icolumn", "fcolumn", "bcolumn", "scolumn", "ecolumn"} {
+		files := parseDir(filepath.Join(repo, "internal", p))
+		mt := mapTables(files, fconsts)
+		names := make([]string, 0, len(mt))
+		for n := range mt {
+			names = append(names, n)
+		}
+		sort.Strings(names)
+		for _, n := range names {
+			if !strings.Contains(strings.ToLower(n), "filter") {
+				continue
+			}
+			var ents []string
+			for _, e := range mt[n] {
+				ents = append(ents, fmt.Sprintf("(%s, %s)", leanStr(e.k), leanStr(e.v)))
+			}
+			tables = append(tables, fmt.Sprintf("  (%s, %s, [%s])", leanStr(p), leanStr(n), strings.Join(ents, ", ")))
+		}
+		fns := funcDecls(files)
+		fnames := make([]string, 0, len(fns))
+		for n := range fns {
+			fnames = append(fnames, n)
+		}
+		sort.Strings(fnames)
+		for _, n := range fnames {
+			fd := fns[n]
+			if !hasParam(fd, "bIndex") || n == "Column.Filter" || n == "Column.filterBuiltIn" {
+				continue
+			}
+			shape, e := kernelShape(fd)
+			kernels = append(kernels, fmt.Sprintf("  (%s, %s, %s, %s)", leanStr(p), leanStr(n), leanStr(shape), leanStr(e)))
+		}
+	}
+	b.WriteString("/-- comparator tables: (package, table, [(comparator, kernel)]) -/\ndef tables : List (String × String × List (String × String)) := [\n" + strings.Join(tables, ",\n") + "]\n\n")
+	b.WriteString("/-- filter kernels: (package, function, shape, expression) with shape ∈ guarded | unguarded | noop | opaque -/\ndef kernels : List (String × String × String × String) := [\n" + strings.Join(kernels, ",\n") + "]\n\n")
+
+	// 3. constants and small function bodies
+	grouper := parseDir(filepath.Join(repo, "internal", "grouper"))
+	ecol := parseDir(filepath.Join(repo, "internal", "ecolumn"))
+	strs := parseDir(filepath.Join(repo, "internal", "strings"))
+	sorter := parseDir(filepath.Join(repo, "internal", "sort"))
+	tmpl := parseDir(filepath.Join(repo, "internal", "template"))
+	index := parseDir(filepath.Join(repo, "internal", "index"))
+	root := parseDir(repo)
+	gfn, efn, sfn, sofn, tfn, ifn, rfn := funcDecls(grouper), funcDecls(ecol), funcDecls(strs), funcDecls(sorter), funcDecls(tmpl), funcDecls(index), funcDecls(root)
+	facts := []kv{
+		{"grouper.maxLoadFactor", valueOf(grouper, "maxLoadFactor")},
+		{"grouper.growthFactor", valueOf(grouper, "growthFactor")},
+		{"grouper.calculateInitialSizeExp", bodyOf(gfn, "calculateInitialSizeExp")},
+		{"grouper.insertEntry", bodyOf(gfn, "table.insertEntry")},
+		{"grouper.grow", bodyOf(gfn, "table.grow")},
+		{"ecolumn.maxCardinality", valueOf(ecol, "maxCardinality")},
+		{"ecolumn.nullValue", valueOf(ecol, "nullValue")},
+		{"ecolumn.bitset.set", bodyOf(efn, "bitset.set")},
+		{"ecolumn.bitset.isSet", bodyOf(efn, "bitset.isSet")},
+		{"ecolumn.compVal", bodyOf(efn, "enumVal.compVal")},
+		{"ecolumn.subset", bodyOf(efn, "Column.subset")},
+		{"strings.nullBit", valueOf(strs, "nullBit")},
+		{"strings.NewPointer", bodyOf(sfn, "NewPointer")},
+		{"strings.Pointer.Offset", bodyOf(sfn, "Pointer.Offset")},
+		{"strings.Pointer.Len", bodyOf(sfn, "Pointer.Len")},
+		{"strings.Pointer.IsNull", bodyOf(sfn, "Pointer.IsNull")},
+		{"strings.CheckName", bodyOf(sfn, "CheckName")},
+		{"strings.isQuoted", bodyOf(sfn, "isQuoted")},
+		{"strings.ToUpper", bodyOf(sfn, "ToUpper")},
+		{"strings.NewMatcher", bodyOf(sfn, "NewMatcher")},
+		{"sort.Less", bodyOf(sofn, "Sorter.Less")},
+		{"sort.Sort", bodyOf(sofn, "Sorter.Sort")},
+		{"sort.quickSort", bodyOf(sofn, "quickSort")},
+		{"sort.doPivot", bodyOf(sofn, "doPivot")},
+		{"sort.heapSort", bodyOf(sofn, "heapSort")},
+		{"sort.siftDown", bodyOf(sofn, "siftDown")},
+		{"sort.insertionSort", bodyOf(sofn, "insertionSort")},
+		{"sort.medianOfThree", bodyOf(sofn, "medianOfThree")},
+		{"sort.maxDepth", bodyOf(sofn, "maxDepth")},
+		{"template.Comparable", bodyOf(tfn, "Column.Comparable")},
+		{"index.Filter", bodyOf(ifn, "Int.Filter")},
+		{"index.Copy", bodyOf(ifn, "Int.Copy")},
+		{"qframe.filter", bodyOf(rfn, "QFrame.filter")},
+		{"qframe.orFrames", bodyOf(rfn, "orFrames")},
+		{"qframe.OrClause.filter", bodyOf(rfn, "OrClause.filter")},
+		{"qframe.AndClause.filter", bodyOf(rfn, "AndClause.filter")},
+		{"qframe.NotClause.filter", bodyOf(rfn, "NotClause.filter")},
+		{"qframe.Sort", bodyOf(rfn, "QFrame.Sort")},
+		{"qframe.setColumn", bodyOf(rfn, "QFrame.setColumn")},
+		{"qframe.Slice", bodyOf(rfn, "QFrame.Slice")},
+		{"qframe.Select", bodyOf(rfn, "QFrame.Select")},
+		{"qframe.Eval", bodyOf(rfn, "QFrame.Eval")},
+		{"qframe.Aggregate", bodyOf(rfn, "Grouper.Aggregate")},
+		{"qframe.tempColName", bodyOf(rfn, "tempColName")},
+	}
+	for _, p := range []string{"icolumn", "fcolumn", "bcolumn", "scolumn", "ecolumn"} {
+		fns := funcDecls(parseDir(filepath.Join(repo, "internal", p)))
+		facts = append(facts, kv{p + ".Comparable", bodyOf(fns, "Column.Comparable")})
+		facts = append(facts, kv{p + ".Compare", bodyOf(fns, "Comparable.Compare")})
+		facts = append(facts, kv{p + ".Hash", bodyOf(fns, "Comparable.Hash")})
+	}
+	fcsv := funcDecls(parseDir(filepath.Join(repo, "internal", "fastcsv")))
+	for _, n := range []string{"bufferedReader.more", "bufferedReader.reset", "fields.nextUnquotedField", "nextQuotedField", "fields.next", "Reader.Next", "eofReaderWrapper.Read"} {
+		facts = append(facts, kv{"fastcsv." + n, bodyOf(fcsv, n)})
+	}
+	sqlfn := funcDecls(parseDir(filepath.Join(repo, "internal", "io", "sql")))
+	for _, n := range []string{"Column.Scan", "Column.Null", "Column.String", "Column.Float", "Column.Int", "Column.Bool", "Column.Data", "Insert", "escape", "ReadSQL", "NewArgBuilder", "StringToFloat", "Int64ToBool"} {
+		facts = append(facts, kv{"sql." + n, bodyOf(sqlfn, n)})
+	}
+	iofn := funcDecls(parseDir(filepath.Join(repo, "internal", "io")))
+	for _, n := range []string{"ReadCSV", "columnToData", "renameDuplicateColumns", "addAliasToMissingColumnNames", "isEmptyLine", "jsonRecordsToData", "UnmarshalJSON"} {
+		facts = append(facts, kv{"io." + n, bodyOf(iofn, n)})
+	}
+	for _, n := range []string{"AppendQuotedString", "QuotedBytes"} {
+		facts = append(facts, kv{"strings." + n, bodyOf(sfn, n)})
+	}
+	for _, n := range []string{"QFrame.ToCSV", "QFrame.ToJSON", "QFrame.ToSQL", "ReadCSV", "ReadJSON", "ReadSQLWithArgs", "New", "createColumn", "QFrame.Drop", "QFrame.Copy", "QFrame.Apply", "QFrame.apply0", "QFrame.apply1", "QFrame.apply2",
+		"QFrame.FilteredApply", "QFrame.WithRowNums", "QFrame.Distinct", "QFrame.GroupBy", "Grouper.QFrames", "QFrame.Equals", "QFrame.Len", "QFrame.String", "newColConstExpr", "colConstExpr.execute", "exprExpr1.execute", "exprExpr2.execute", "colColExpr.execute", "unaryExpr.execute", "constExpr.execute", "getFunc", "Expr"} {
+		facts = append(facts, kv{"qframe." + n, bodyOf(rfn, n)})
+	}
+	for _, n := range []string{"groupIndex", "GroupBy", "Distinct", "equals", "table.hash", "newTable"} {
+		facts = append(facts, kv{"grouper." + n, bodyOf(gfn, n)})
+	}
+	for _, n := range []string{"New", "NewConst", "NewFactory", "Factory.enumVal", "Factory.appendString", "Factory.AppendByteString", "Factory.AppendString", "toUpper", "Column.Equals", "Column.filterBuiltIn", "filterLike", "in"} {
+		facts = append(facts, kv{"ecolumn." + n, bodyOf(efn, n)})
+	}
+	scfn := funcDecls(parseDir(filepath.Join(repo, "internal", "scolumn")))
+	for _, n := range []string{"New", "NewConst", "toUpper", "Column.stringAt", "Column.subset", "Column.Equals", "regexFilter"} {
+		facts = append(facts, kv{"scolumn." + n, bodyOf(scfn, n)})
+	}
+	for _, p := range []string{"icolumn", "fcolumn", "bcolumn"} {
+		fns := funcDecls(parseDir(filepath.Join(repo, "internal", p)))
+		for _, n := range []string{"NewConst", "Column.Apply1", "Column.Apply2", "Column.Aggregate", "Column.subsetWithBuf", "Column.Equals", "View.Slice", "View.ItemAt", "Column.StringAt", "Column.AppendByteStringAt"} {
+			facts = append(facts, kv{p + "." + n, bodyOf(fns, n)})
+		}
+	}
+	b.WriteString("/-- constants and function bodies as normalised source text: (name, text) -/\ndef facts : List (String × String) := [\n")
+	for i, f := range facts {
+		if i > 0 {
+			b.WriteString(",\n")
+		}
+		fmt.Fprintf(&b, "  (%s, %s)", leanStr(f.k), leanStr(f.v))
+	}
+	b.WriteString("]\n\n")
+	b.WriteString("/-- the numeric constants among the facts: (name, source text) -/\ndef consts : List (String × String) := [")
+	first := true
+	for _, f := range facts {
+		switch f.k {
+		case "grouper.maxLoadFactor", "grouper.growthFactor", "ecolumn.maxCardinality", "ecolumn.nullValue", "strings.nullBit":
+			if !first {
+				b.WriteString(", ")
+			}
+			first = false
+			fmt.Fprintf(&b, "(%s, %s)", leanStr(f.k), leanStr(f.v))
+		}
+	}
+	b.WriteString("]\n\n")
+	// FNV-1a hashes of the texts: proofs compare these numbers (cheap in the kernel), the texts above are for the reader
+	b.WriteString("/-- 64-bit FNV-1a hash of each fact's text: (name, hash) -/\ndef hashes : List (String × Nat) := [\n")
+	for i, f := range facts {
+		if i > 0 {
+			b.WriteString(",\n")
+		}
+		fmt.Fprintf(&b, "  (%s, %d)", leanStr(f.k), fnv64(f.v))
+	}
+	b.WriteString("]\n\n")
+	fmt.Fprintf(&b, "/-- hash of the comparator tables and of the kernel list -/\ndef tablesHash : Nat := %d\ndef kernelsHash : Nat := %d\n\n", fnv64(strings.Join(tables, "\n")), fnv64(strings.Join(kernels, "\n")))
+
+	// 4. default evaluation context: (operand type, arity, name, function)
+	evalFiles := parseDir(filepath.Join(repo, "config", "eval"))
+	var ctxEntries []string
+	if fd, ok := funcDecls(evalFiles)["NewDefaultCtx"]; ok {
+		ast.Inspect(fd.Body, func(n ast.Node) bool {
+			kvp, ok := n.(*ast.KeyValueExpr)
+			if !ok {
+				return true
+			}
+			typ := src(kvp.Key)
+			if !strings.HasPrefix(typ, "types.FunctionType") {
+				return true
+			}
+			inner, ok := kvp.Value.(*ast.CompositeLit)
+			if !ok {
+				return true
+			}
+			for _, el := range inner.Elts {
+				ar, ok := el.(*ast.KeyValueExpr)
+				if !ok {
+					continue
+				}
+				m, ok := ar.Value.(*ast.CompositeLit)
+				if !ok {
+					continue
+				}
+				for _, fe := range m.Elts {
+					if fk, ok := fe.(*ast.KeyValueExpr); ok {
+						name := resolveKey(fk.Key, nil)
+						ctxEntries = append(ctxEntries, fmt.Sprintf("  (%s, %s, %s, %s)", leanStr(strings.TrimPrefix(typ, "types.FunctionType")), leanStr(src(ar.Key)), leanStr(name), leanStr(src(fk.Value))))
+					}
+				}
+			}
+			return false
+		})
+	}
+	sort.Strings(ctxEntries)
+	fmt.Fprintf(&b, "def evalCtxHash : Nat := %d\n", fnv64(strings.Join(ctxEntries, "\n")))
+	b.WriteString("/-- default evaluation context: (operand type, arity field, name, function) -/\ndef evalCtx : List (String × String × String × String) := [\n" + strings.Join(ctxEntries, ",\n") + "]\n\n")
+	// one-line function bodies of package function
+	fnFiles := funcDecls(parseDir(filepath.Join(repo, "function")))
+	fnNames := make([]string, 0)
+	for n := range fnFiles {
+		fnNames = append(fnNames, n)
+	}
+	sort.Strings(fnNames)
+	b.WriteString("/-- bodies of the functions of package function -/\ndef functions : List (String × String) := [\n")
+	for i, n := range fnNames {
+		if i > 0 {
+			b.WriteString(",\n")
+		}
+		fmt.Fprintf(&b, "  (%s, %s)", leanStr(n), leanStr(src(fnFiles[n].Body)))
+	}
+	b.WriteString("]\n\nend QF.Gen\n")
+	if err := writeIfChanged(filepath.Join(out, "Facts.lean"), b.Bytes()); err != nil {
+		return err
+	}
+
+	// 5. Ryu tables
+	ryu := parseDir(filepath.Join(repo, "internal", "ryu"))
+	var rb bytes.Buffer
+	rb.WriteString("/- GENERATED on every run by /verif/go/cmd/extract from /repo/internal/ryu/tables.go (tie T1). Do not edit. -/\nnamespace QF.Gen\n\n")
+	for _, name := range []string{"pow5Split64", "pow5InvSplit64"} {
+		t := ryuTable(ryu, name)
+		fmt.Fprintf(&rb, "/-- %s as (lo, hi) 64-bit halves -/\ndef %s : Array (Nat × Nat) := #[\n", name, name)
+		for i, p := range t {
+			if i > 0 {
+				rb.WriteString(",\n")
+			}
+			fmt.Fprintf(&rb, "  (%s, %s)", p[0], p[1])
+		}
+		rb.WriteString("]\n\n")
+	}
+	for _, name := range []string{"pow5NumBits64", "pow5InvNumBits64"} {
+		fmt.Fprintf(&rb, "def %s : String := %s\n", name, leanStr(valueOf(ryu, name)))
+	}
+	rfns := funcDecls(ryu)
+	rb.WriteString("\n/-- small helpers of the Ryu core as source text -/\ndef ryuFacts : List (String × String) := [\n")
+	rnames := []string{"log10Pow2", "log10Pow5", "pow5Bits", "mulShift64", "shiftRight128", "pow5Factor64", "multipleOfPowerOfFive64", "multipleOfPowerOfTwo64", "decimalLen64", "sizeSlice", "float64ToDecimalExactInt", "dec64.appendF", "AppendFloat64f", "appendSpecialf"}
+	for i, n := range rnames {
+		if i > 0 {
+			rb.WriteString(",\n")
+		}
+		fmt.Fprintf(&rb, "  (%s, %s)", leanStr(n), leanStr(bodyOf(rfns, n)))
+	}
+	rb.WriteString("]\n\nend QF.Gen\n")
+	return writeIfChanged(filepath.Join(out, "Ryu.lean"), rb.Bytes())
+}
